@@ -261,6 +261,13 @@ func GenScenario(t *rapid.T, o GenOpts) Scenario {
 		sc.Stack = clean
 	}
 	// listeners: some instances register only a subset of theirs (a policy must not depend on a listener being there)
+	if o.MuteOneIn > 0 && rapid.IntRange(1, o.MuteOneIn).Draw(t, "muteExec") == 1 {
+		for _, name := range []string{"OnSuccess", "OnFailure", "OnDone"} {
+			if rapid.Bool().Draw(t, "muteExecListener") {
+				sc.ExecMute = append(sc.ExecMute, name)
+			}
+		}
+	}
 	if o.MuteOneIn > 0 {
 		for i := range sc.Pool {
 			if sc.Pool[i].Plain || rapid.IntRange(1, o.MuteOneIn).Draw(t, "muteSome") != 1 {
